@@ -347,7 +347,7 @@ def run_case(case):
         viol.append(gfi.exc_violation(e, case["kind"]))
     dims = (case.get("K"), case.get("M"), case.get("ds"), case.get("do"), case["T"])
     return {"violations": viol, "steps": evals, "probes": probes, "faults": {}, "evals": evals,
-            "key": f"{case['kind']}|{dims}|{case.get('api')}|{hash(str(case.get('trans') or case.get('A'))) % 10**6}",
+            "key": f"{case['kind']}|{dims}|{case.get('api')}|{__import__('hashlib').sha256(str(case.get('trans') or case.get('A')).encode()).hexdigest()[:8]}",
             "nontrivial": case["T"] >= 2, "extra": {"trees_complete": probes.get("tree_complete", 0)}}
 
 
